@@ -123,6 +123,20 @@ template <class T> static void all (uint64_t seed, int count)
     // the lengthTiny threshold: squares straddling 2*min
     int et = (std::numeric_limits<T>::min_exponent) / 2;
     for (int d = -3; d <= 3; ++d) { patterns<T, Vec2<T>> (g, 2, et + d); patterns<T, Vec3<T>> (g, 3, et + d); patterns<T, Vec4<T>> (g, 4, et + d); }
+    // nearly unit vectors: length 1 + d for |d| from a few ulps up to 2^-8 (no form may treat "close to one" as "already normalised"
+    // with a tolerance wider than the element type's own precision)
+    for (int rep = 0; rep < 2 * count; ++rep)
+        for (int k = 8; k < std::numeric_limits<T>::digits; k += (sizeof (T) == 4 ? 3 : 5))
+        {
+            long double c[4], sq = 0;
+            int n = 2 + (int) g.rng.below (3);
+            for (int i = 0; i < n; ++i) { c[i] = (long double) g.rng.range (-1000, 1000) + 0.5L; sq += c[i] * c[i]; }
+            if (g.rng.below (3) == 0) { for (int i = 1; i < n; ++i) { sq -= c[i] * c[i]; c[i] = std::ldexp (c[i], -(int) g.rng.range (8, 30)); sq += c[i] * c[i]; } }    // (1, small, small)
+            long double sc = (1.0L + (g.rng.below (2) ? 1 : -1) * std::ldexp (1.0L, -k)) / std::sqrt (sq);
+            if (n == 2) { Vec2<T> v ((T) (c[0] * sc), (T) (c[1] * sc)); one<T> (v, 2); }
+            else if (n == 3) { Vec3<T> v ((T) (c[0] * sc), (T) (c[1] * sc), (T) (c[2] * sc)); one<T> (v, 3); }
+            else { Vec4<T> v ((T) (c[0] * sc), (T) (c[1] * sc), (T) (c[2] * sc), (T) (c[3] * sc)); one<T> (v, 4); }
+        }
     // Vec3(Vec4[, INF_EXCEPTION]): w in {0, denormal, <1, >=1}, components up to the maximum
     const T big = std::numeric_limits<T>::max ();
     const T ws[] = {0, std::numeric_limits<T>::denorm_min (), std::numeric_limits<T>::min (), (T) 1e-10, (T) 0.25, (T) 0.5,
